@@ -1,4 +1,6 @@
 import IrVerif.Lemmas.SerdeFields
+import IrVerif.Lemmas.SerdeWideSub
+import IrVerif.Lemmas.SerdeMergeSub
 /-!
 C02 — ONNX proto -> IR -> proto is lossless (DESIGN.md section 5, C02).
 
@@ -21,6 +23,26 @@ patterns, a proto-backed tensor keeps its TensorProto; float32 <-> double conver
 decoding live in the trusted renderer of `harness/c02.py`) are stated below for the reader but are
 NOT claimed as property theorems: `dim_by_construction`, `attr_scalar_by_construction`,
 `tensor_proto_backed_by_construction`.
+
+Stage D (deepening round; model `IrVerif/Model/SerdeWide.lean`): the widened `WFproto`.  `fold*`
+removes from a proto exactly the entries that `deserialize` never reads — repeated `value_info`
+names (last wins, E6), `value_info` entries naming a graph input (E2), repeated opset domains (E5),
+`external_data` entries that are shadowed or carry an unspecified key (E7).
+`C02_fold_unread*`: `deserialize (fold p) = deserialize p` for EVERY proto (no hypothesis);
+`C02_model_wide` / `C02_graph_wide` / `C02_function_alone_wide` / `C02_tensor_wide`: the round trip
+for `WFprotoW p := WFproto (fold p)` with canonical form `norm (fold p)`; `C02_wide_subsumes`: on the
+old `WFproto` the fold is the identity, so these contain `C02_model` etc.; `C02_fold_value_info`,
+`C02_fold_external`: what the fold keeps.  `C02_tensor_fields`: every field of a TensorProto, one
+by one, for all three tensor classes (`serTensorF` = `serialize_tensor_into` field by field; this
+supersedes `tensor_proto_backed_by_construction`).
+
+Stage E: `merge*` (E3): a `value_info` entry naming a graph output that the graph produces is united
+into the output entry — the same "one Value carries one entry" normalisation as `mergeVI`
+(`C02_merge_output`).  This changes what `deserialize` reads, so
+`deserialize (merge p) = deserialize p` is proved for `WFproto (merge p)` (`C02_merge_deserialize*`).
+`canon p := merge (fold p)`; `C02_model_canon` / `C02_graph_canon` / `C02_function_alone_canon`:
+`WFproto (canon p) -> serialize (deserialize p) = norm (canon p)`; `C02_canon_subsumes`: these
+contain both the old and the stage-D theorems.
 -/
 namespace IrVerif.Serde
 open IrVerif.Proto
@@ -377,5 +399,268 @@ def exampleModelIR9 : ModelP :=
     configuration := [] }
 
 example : wfModel exampleModelIR9 = true := by decide
+
+/-! ## stage D: the widened `WFproto` (deepening round) -/
+
+/-- what the fold drops is never read: `deserialize (fold g) = deserialize g` for EVERY graph, in any
+scope chain (so: every subgraph at any depth) — no well-formedness hypothesis -/
+theorem C02_fold_unread_graph (outer : Scopes) (g : GraphP) :
+    desGraph outer (foldGraph g) = desGraph outer g :=
+  desGraph_fold outer g
+
+/-- the same for every function -/
+theorem C02_fold_unread_function (f : FunctionP) : desFunction (foldFunction f) = desFunction f :=
+  desFunction_fold f
+
+/-- the same for every model from IR version 10 on; below, the main graph's `value_info` list is read
+a second time by the experimental function value-info decoding, which selects entries by parsing
+their names as `domain::name/value`: there no graph input may have a name of that form
+(`inputsPlain`; `wfModel` says so of every value of the main graph) -/
+theorem C02_fold_unread (m : ModelP) (h : m.irVersion ≥ 10 ∨ inputsPlain m.graph = true) :
+    desModel (foldModel m) = desModel m :=
+  desModel_fold m h
+
+/-- what the fold keeps of a `value_info` list (`I` = the graph's input names): for every name that
+is not a graph input the entry `deserialize` reads (the last one) is still the one it reads; nothing
+is invented; names are distinct afterwards -/
+theorem C02_fold_value_info (I : List String) (vis : List ValueInfoP) :
+    (∀ n, n ∉ I → findVI (foldVIs I vis) n = findVI vis n) ∧
+    (∀ v ∈ foldVIs I vis, v ∈ vis ∧ v.name ∉ I) ∧
+    ((foldVIs I vis).map (·.name)).Nodup := by
+  refine ⟨fun n hn => findVI_foldVIs I vis hn, ?_, ?_⟩
+  · intro v hv
+    simp only [foldVIs, List.mem_filter] at hv
+    exact ⟨dedupLastBy_subset _ hv.1, by simpa using hv.2⟩
+  · unfold foldVIs dedupLastVI
+    exact ((List.filter_sublist).map _).nodup (dedupLastBy_nodup (fun v : ValueInfoP => v.name) vis)
+
+/-- what the fold keeps of `external_data`: for each of the four specified keys the value
+`ExternalDataInfo` reads (the last entry) is unchanged; only entries of the input remain; keys are
+distinct afterwards -/
+theorem C02_fold_external (es : List Entry) :
+    (∀ k ∈ extKeys, extGet (foldExternal es) k = extGet es k) ∧
+    (∀ e ∈ foldExternal es, e ∈ es ∧ e.key ∈ extKeys) ∧
+    ((foldExternal es).map (·.key)).Nodup := by
+  refine ⟨fun k hk => extGet_foldExternal es hk, ?_, foldExternal_nodup es⟩
+  intro e he
+  simp only [foldExternal, List.mem_filter] at he
+  exact ⟨dedupLastBy_subset _ he.1, by simpa using he.2⟩
+
+/-- a whole model in the widened domain: `WFproto (fold m) -> serialize (deserialize m) = norm (fold m)` -/
+theorem C02_model_wide (m : ModelP) (h : wfModelW m = true) :
+    ∃ x, desModel m = .ok x ∧ serModel x = .ok (normModelW m) := by
+  obtain ⟨x, h1, h2⟩ := model_rt (foldModel m) h
+  rw [desModel_fold m (by simpa [foldModel, foldGraph_inputs, inputsPlain] using inputsPlain_of_wf _ h)] at h1
+  exact ⟨x, h1, h2⟩
+
+/-- in the form of the property statement: `norm (serialize (deserialize m)) = norm (fold m)` -/
+theorem C02_model_norm_wide (m : ModelP) (h : wfModelW m = true) :
+    ∃ x y, desModel m = .ok x ∧ serModel x = .ok y ∧ normModel y = normModelW m := by
+  obtain ⟨x, h1, h2⟩ := C02_model_wide m h
+  exact ⟨x, normModelW m, h1, h2, normModel_idem (foldModel m) h⟩
+
+/-- graphs in any scope chain, widened -/
+theorem C02_graph_wide (outer : Scopes) (ver : Option Int) (g : GraphP) (h : wfGraphW outer g = true)
+    (hver : verAllows ver = true ∨ graphHasDevCfg (foldGraph g) = false) :
+    ∃ x, desGraph outer g = .ok x ∧ serGraph outer ver x = .ok (normGraphW g) := by
+  obtain ⟨x, h1, h2⟩ := graph_rt outer ver (foldGraph g) h hver
+  rw [desGraph_fold] at h1
+  exact ⟨x, h1, h2⟩
+
+/-- stand-alone functions, widened -/
+theorem C02_function_alone_wide (f : FunctionP) (h : wfFunctionAloneW f = true) :
+    ∃ x, desFunction f = .ok x ∧ serFunction none true x = .ok (normFunctionW true f) := by
+  obtain ⟨x, h1, h2⟩ := C02_function_alone (foldFunction f) h
+  rw [desFunction_fold] at h1
+  exact ⟨x, h1, h2⟩
+
+/-- tensors, widened (external entries with repeated or unspecified keys) -/
+theorem C02_tensor_wide (p : TensorP) (h : wfTensorW p = true) :
+    ∃ t, desTensor p = .ok t ∧ serTensor t = normTensorW p := by
+  obtain ⟨t, h1, h2, _⟩ := tensor_roundtrip (foldTensor p) h
+  rw [desTensor_foldTensor] at h1
+  exact ⟨t, h1, h2⟩
+
+/-- the widened theorems contain the old ones: on `WFproto` the fold is the identity -/
+theorem C02_wide_subsumes (m : ModelP) (h : wfModel m = true) :
+    foldModel m = m ∧ wfModelW m = true ∧ normModelW m = normModel m := by
+  have hf := foldModel_of_wf m h
+  exact ⟨hf, by rw [wfModelW, hf]; exact h, by rw [normModelW, hf]⟩
+
+/-- field by field in the widened domain: everything `ModelKeeps` / `NodeKeeps` / `GraphKeeps` name is
+kept of `fold m` (and `C02_fold_value_info` / `C02_fold_external` say what `fold` keeps of `m`) -/
+theorem C02_keeps_wide (m : ModelP) (h : wfModelW m = true) :
+    ∃ x q, desModel m = .ok x ∧ serModel x = .ok q ∧ ModelKeeps q (foldModel m) ∧
+      Pointwise NodeKeeps (modelNodes q) (modelNodes (foldModel m)) ∧
+      Pointwise GraphKeeps (modelGraphs q) (modelGraphs (foldModel m)) := by
+  obtain ⟨x, q, h1, h2, h3⟩ := model_keeps (foldModel m) h
+  rw [desModel_fold m (by simpa [foldModel, foldGraph_inputs, inputsPlain] using inputsPlain_of_wf _ h)] at h1
+  exact ⟨x, q, h1, h2, h3⟩
+
+/-- every field of a TensorProto, one by one, for all three tensor classes (`serTensorF` is
+`serialize_tensor_into` written out per class and per field; it agrees with `serTensor` on everything
+`deserialize_tensor` returns): name, doc string, element type, dims, data location, and the payload
+in exactly the storage field it came in (`raw_data`, `float_data`, `int32_data`, `string_data`,
+`int64_data`, `double_data`, `uint64_data`: nothing is re-encoded); the external entries as
+`C02_fold_external` describes; `metadata_props` as the same finite map.  Supersedes
+`tensor_proto_backed_by_construction`. -/
+theorem C02_tensor_fields (p : TensorP) (h : wfTensorW p = true) :
+    ∃ t, desTensor p = .ok t ∧ serTensorF t = serTensor t ∧ tensorFieldsKept (serTensorF t) p = true := by
+  obtain ⟨t, h1, h2⟩ := tensor_fields p h
+  exact ⟨t, h1, serTensorF_eq p t h1, h2⟩
+
+/-- non-vacuity: a proto-backed tensor with every storage field populated at once (no hypothesis
+beyond distinct metadata keys), and an external tensor with a shadowed `offset`, an unspecified key
+and entries out of order -/
+example : wfTensorW
+    { emptyTensorP with
+      name := "t", doc := "d", dataType := 1, dims := [2], rawData := some "0000803f00000040",
+      floatData := [1], int32Data := [2], int64Data := [3], doubleData := [4], uint64Data := [5],
+      stringData := ["ff"], metadata := [⟨"b", "1"⟩, ⟨"a", "2"⟩] } = true := by decide
+
+def exampleExternalWide : TensorP :=
+  { emptyTensorP with
+    name := "wext", dataType := 1, dims := [4], dataLocation := 1,
+    externalData := [⟨"offset", "0"⟩, ⟨"basepath", "/x"⟩, ⟨"location", "w.bin"⟩, ⟨"offset", "4096"⟩] }
+
+example : wfTensorW exampleExternalWide = true ∧ wfTensor exampleExternalWide = false := by decide
+
+example : (normTensorW exampleExternalWide).externalData = [⟨"location", "w.bin"⟩, ⟨"offset", "4096"⟩] := by
+  decide
+
+/-- non-vacuity of the widened domain: `exampleModel` with (E6) two `value_info` entries for `b` in the
+main graph, (E2) a `value_info` entry naming the graph input `x`, (E5) the opset domain `custom`
+imported twice, (E7) the external initializer above — outside `wfModel`, inside `wfModelW` -/
+def exampleModelWide : ModelP :=
+  { exampleModel with
+    opsetImport := [⟨"", 18⟩, ⟨"custom", 1⟩, ⟨"custom", 2⟩],
+    graph := match exampleGraph with
+      | .mk name doc nodes inits inputs outputs vis quant md =>
+        .mk name doc nodes (inits ++ [exampleExternalWide]) inputs outputs
+          ([⟨"b", .tensor (some 7) none "", "shadowed", []⟩, ⟨"x", .tensor (some 9) none "", "", []⟩] ++ vis)
+          quant md }
+
+example : wfModelW exampleModelWide = true ∧ wfModel exampleModelWide = false := by decide
+
+example : (normModelW exampleModelWide).opsetImport = [⟨"", 18⟩, ⟨"custom", 2⟩] := by decide
+
+/-- non-vacuity below IR version 10: `exampleModelIR9` with a shadowed experimental entry for the
+function value `pkg::fn/a` (E6) and a `value_info` entry naming the graph input `x` (E2) -/
+def exampleModelIR9Wide : ModelP :=
+  { exampleModelIR9 with
+    graph := match exampleModelIR9.graph with
+      | .mk name doc nodes inits inputs outputs vis quant md =>
+        .mk name doc nodes inits inputs outputs
+          ([⟨"pkg::fn/a", .tensor (some 7) none "", "shadowed", []⟩, ⟨"x", .tensor (some 9) none "", "", []⟩] ++ vis)
+          quant md }
+
+example : wfModelW exampleModelIR9Wide = true ∧ wfModel exampleModelIR9Wide = false := by decide
+
+/-! ## stage E: merge (E3) and the canonical pre-form `canon = merge ∘ fold` -/
+
+/-- a `value_info` entry naming an output produced in the graph may be united into the output entry:
+for every graph (any scope chain, so any nesting depth) with `WFproto (merge g)` the merged graph
+deserializes to the same IR -/
+theorem C02_merge_deserialize_graph (outer : Scopes) (g : GraphP) (h : wfGraph outer (mergeGraph g) = true) :
+    desGraph outer (mergeGraph g) = desGraph outer g :=
+  desGraph_merge outer g h
+
+/-- the same for whole models (below IR version 10 the experimental function value-info decoding
+finds the same entries: the dropped ones name values of the main graph, and those names are not of
+the experimental form) -/
+theorem C02_merge_deserialize (m : ModelP) (h : wfModel (mergeModel m) = true) :
+    desModel (mergeModel m) = desModel m :=
+  desModel_merge m h
+
+/-- what `merge` does to an output entry: nothing, or — there is a well-formed `value_info` entry `vi`
+(the last one of that name) for this declared, non-input value — name, type, shape and doc string
+stay and the canonical form of the entry is `mergeVI vi vo`, the very normalisation of a value that
+is both graph input and output (`examplePassThrough`): metadata united, output entry wins per key -/
+theorem C02_merge_output (D I : List String) (vis : List ValueInfoP) (vo : ValueInfoP) :
+    mergeOutVI D I vis vo = vo ∨
+    ∃ vi, findVI vis vo.name = some vi ∧ wfVI vi = true ∧ D.contains vo.name = true ∧
+      I.contains vo.name = false ∧ normValueInfo (mergeOutVI D I vis vo) = mergeVI vi vo := by
+  unfold mergeOutVI
+  split
+  · rename_i ha
+    simp only [mergeApplies, Bool.and_eq_true, Bool.not_eq_true'] at ha
+    cases hf : findVI vis vo.name with
+    | none => left; rfl
+    | some vi =>
+      simp only []
+      split
+      · rename_i hwf
+        right
+        refine ⟨vi, rfl, hwf, ha.1.1, ha.1.2, ?_⟩
+        have hnd : (dkeys (dictUpdate (dictOfEntries vi.metadata) (dictOfEntries vo.metadata))).Nodup :=
+          nodup_dkeys_dictUpdate (nodup_dkeys_dictOfEntries _) _
+        simp only [normValueInfo, mergeVI, normEntries, dictOfEntries_entriesOfDict _ hnd]
+      · left; rfl
+  · left; rfl
+
+/-- a whole model in the second widened domain: `WFproto (canon m) -> serialize (deserialize m) =
+norm (canon m)`, `canon = merge ∘ fold` -/
+theorem C02_model_canon (m : ModelP) (h : wfModelX m = true) :
+    ∃ x, desModel m = .ok x ∧ serModel x = .ok (normModelX m) := by
+  obtain ⟨x, h1, h2⟩ := model_rt (canonModel m) h
+  rw [desModel_canon m h] at h1
+  exact ⟨x, h1, h2⟩
+
+/-- in the form of the property statement -/
+theorem C02_model_norm_canon (m : ModelP) (h : wfModelX m = true) :
+    ∃ x y, desModel m = .ok x ∧ serModel x = .ok y ∧ normModel y = normModelX m := by
+  obtain ⟨x, h1, h2⟩ := C02_model_canon m h
+  exact ⟨x, normModelX m, h1, h2, normModel_idem (canonModel m) h⟩
+
+/-- graphs in any scope chain -/
+theorem C02_graph_canon (outer : Scopes) (ver : Option Int) (g : GraphP) (h : wfGraphX outer g = true)
+    (hver : verAllows ver = true ∨ graphHasDevCfg (canonGraph g) = false) :
+    ∃ x, desGraph outer g = .ok x ∧ serGraph outer ver x = .ok (normGraphX g) := by
+  obtain ⟨x, h1, h2⟩ := graph_rt outer ver (canonGraph g) h hver
+  unfold canonGraph at h1
+  rw [desGraph_merge outer _ h, desGraph_fold] at h1
+  exact ⟨x, h1, h2⟩
+
+/-- stand-alone functions -/
+theorem C02_function_alone_canon (f : FunctionP) (h : wfFunctionAloneX f = true) :
+    ∃ x, desFunction f = .ok x ∧ serFunction none true x = .ok (normFunctionX true f) := by
+  obtain ⟨x, h1, h2⟩ := C02_function_alone (canonFunction f) h
+  unfold canonFunction at h1
+  rw [desFunction_merge 10 _ h, desFunction_fold] at h1
+  exact ⟨x, h1, h2⟩
+
+/-- the second widening contains the first and the original domain: on `WFproto` (of the folded
+model) `merge` is the identity -/
+theorem C02_canon_subsumes (m : ModelP) :
+    (wfModel m = true → canonModel m = m ∧ wfModelX m = true ∧ normModelX m = normModel m) ∧
+    (wfModelW m = true → canonModel m = foldModel m ∧ wfModelX m = true ∧ normModelX m = normModelW m) := by
+  refine ⟨fun h => ?_, fun h => ?_⟩
+  · have hc := canonModel_of_wf m h
+    exact ⟨hc, by rw [wfModelX, hc]; exact h, by rw [normModelX, hc]⟩
+  · have hc : canonModel m = foldModel m := mergeModel_of_wf _ h
+    exact ⟨hc, by rw [wfModelX, hc]; exact h, by rw [normModelX, hc, normModelW]⟩
+
+/-- field by field in the second widened domain -/
+theorem C02_keeps_canon (m : ModelP) (h : wfModelX m = true) :
+    ∃ x q, desModel m = .ok x ∧ serModel x = .ok q ∧ ModelKeeps q (canonModel m) ∧
+      Pointwise NodeKeeps (modelNodes q) (modelNodes (canonModel m)) ∧
+      Pointwise GraphKeeps (modelGraphs q) (modelGraphs (canonModel m)) := by
+  obtain ⟨x, q, h1, h2, h3⟩ := model_keeps (canonModel m) h
+  rw [desModel_canon m h] at h1
+  exact ⟨x, q, h1, h2, h3⟩
+
+/-- non-vacuity: `exampleModelWide` with (E3) a `value_info` entry for the graph output `y` (a node
+output) whose metadata is united into the output entry — outside `wfModelW`, inside `wfModelX` -/
+def exampleModelCanon : ModelP :=
+  { exampleModelWide with
+    graph := match exampleModelWide.graph with
+      | .mk name doc nodes inits inputs outputs vis quant md =>
+        .mk name doc nodes inits inputs outputs
+          (vis ++ [⟨"y", .tensor (some 7) none "", "vi doc", [⟨"v", "1"⟩, ⟨"m", "0"⟩]⟩]) quant md }
+
+example : wfModelX exampleModelCanon = true ∧ wfModelW exampleModelCanon = false := by decide
+
+example : (normModelX exampleModelCanon).graph.outputs
+    = [⟨"y", .sequence (.tensor (some 1) (some []) "") "SEQ", "out", [⟨"m", "1"⟩, ⟨"v", "1"⟩]⟩] := by decide
 
 end IrVerif.Serde
